@@ -1363,6 +1363,11 @@ func structFields(c0 *leafCtx, structs map[string][][2]string, name string, st *
 		if lt == "" {
 			continue // a field outside the subset: leaves that use it fail to translate
 		}
+		if len(fl.Names) == 0 { // embedded struct of the package: a field named like its type (promoted selectors are refused: unknown field)
+			if id, ok := fl.Type.(*ast.Ident); ok && strings.HasPrefix(lt, "S_") {
+				fs = append(fs, [2]string{id.Name, lt})
+			}
+		}
 		for _, n := range fl.Names {
 			fs = append(fs, [2]string{n.Name, lt})
 		}
